@@ -82,7 +82,7 @@ def is_masked_in(env_name: str, mask: Optional[np.ndarray], action) -> bool:
         return bool(a < mask.shape[0] and mask[int(a)])
     if kind == "joint":
         return bool(mask[tuple(int(x) for x in a)])
-    return all(bool(int(x) < mask.shape[1] and mask[i, int(x)]) for i, x in enumerate(a))
+    return all(bool(int(x) < mask.shape[1] and mask[i, int(x)]) for i, x in enumerate(a) if mask[i].any())
 
 
 def sample_illegal(env_name: str, spec, mask: Optional[np.ndarray], rng: np.random.Generator):
